@@ -11,7 +11,7 @@
                     over m (ideal signatures: unforgeability, one meaning per byte string). *)
 From Coq Require Import List String Bool NArith ZArith.
 Import ListNotations.
-From VF Require Import common.Json gen.Gen_C07 C07.Model C07.Proofs C07.ProofsRT C07.StrictModel C07.ProofsStrict.
+From VF Require Import common.Json gen.Gen_C07 C07.Model C07.Proofs C07.ProofsRT C07.StrictModel C07.ProofsStrict C07.ParseModel C07.ProofsParse.
 Open Scope string_scope.
 Open Scope list_scope.
 
@@ -21,7 +21,9 @@ Theorem options_protected :
   forallb (fun k => negb (mem_str k excluded_keys) && negb (mem_str k jws_deleted_keys))
           ["created"; "verificationMethod"; "proofPurpose"; "domain"; "challenge"; "type"; "creator"; "capabilityChain"] = true
   /\ mem_str "created" mandatory_keys = true
-  /\ verify_object_checks_all_proofs = true.
+  /\ verify_object_checks_all_proofs = true
+  (* the detached-JWS representation also covers the nonce (only the signature holders are dropped there) *)
+  /\ mem_str "nonce" jws_deleted_keys = false.
 Proof. vm_compute. auto. Qed.
 Print Assumptions options_protected.
 
@@ -221,6 +223,80 @@ Example strict_rejects_nonvacuous :
   (* and a document without undefined members passes *)
   strict_ok SFixed (dropm sw_dfn strict_witness_bare_id) (compact_inst sw_dfn (dropm sw_dfn strict_witness_bare_id)) = true.
 Proof. vm_compute. repeat split. Qed.
+
+(* ---- EXACTNESS OF THE DOCUMENT.  Full statement: an accepted document IS (member for member) the signed one.
+        REFUTED on the faithful model with the canonical forms the real canonicaliser returned (corpus witness
+        vp-jwt-credential-swapped.json; known finding vp-jwt-credential-string-not-covered): under the credentials
+        context `verifiableCredential` is an @id-typed @graph container, a credential carried as a JWT STRING is no
+        IRI and leaves no trace in the canonical form - two presentations that differ in that string canonicalise to
+        the same N-Quads, and the proof made for one is accepted on the other. ---- *)
+Definition vpA : obj := [("@context", JStr "ctx"); ("holder", JStr "did:h"); ("verifiableCredential", JArr [JStr "hdr.claimsA.sigA"])].
+Definition vpB : obj := [("@context", JStr "ctx"); ("holder", JStr "did:h"); ("verifiableCredential", JArr [JStr "hdr.claimsB.sigB"])].
+Definition vp_ctx : sign_ctx :=
+  {| s_type := "Ed25519Signature2018"; s_repr := RProofValue; s_created := "2021-01-01T00:00:00Z"; s_vm := "did:ex:i#k1";
+     s_domain := ""; s_challenge := "c-1"; s_purpose := "authentication"; s_nonce := ""; s_alg_header := "" |}.
+Definition vp_canon (j : json) : option N :=
+  if json_eqb j (JObj vpA) || json_eqb j (JObj vpB) then Some 2%N
+  else match j with JObj m => match lookup m "challenge" with Some _ => Some 1%N | None => None end | _ => None end.
+Definition vp_verify (d : obj) : outcome :=
+  check_embedded vp_canon (fun _ => None) (fun _ => true) (fun _ => Some "")
+    (fun t _ => if String.eqb t "SIG" then DSig (SBy 7%N (MHash 1%N 2%N)) else DErr) (fun _ => DErr)
+    (fun d f => if String.eqb d "did:ex:i" && String.eqb f "#k1" then Some 7%N else None)
+    (fun t => String.eqb t "Ed25519Signature2018") false
+    (fun _ => false) (fun s => s) (fun _ => false) (fun _ _ => None) (fun _ => DErr) ("", "", "")
+    excluded_keys di_config_members true d.
+
+Theorem verified_document_exact_refuted :
+  sign_message vp_canon (fun _ => None) false excluded_keys vpA vp_ctx = Some (MHash 1%N 2%N) /\
+  vp_verify (add_proof vpA (signed_proof vp_ctx "SIG")) = Verified 1 /\
+  vp_verify (add_proof vpB (signed_proof vp_ctx "SIG")) = Verified 1 /\
+  without_proof vpA <> without_proof vpB.
+Proof. repeat split; try (vm_compute; reflexivity). vm_compute. discriminate. Qed.
+Print Assumptions verified_document_exact_refuted.
+
+(* GUARDED: if the canonicaliser is injective (no member is lost: every term defined, every value representable in
+   RDF - which excludes exactly the JWT-string class), the accepted document is the signed one, member for member.
+   (Suites without CompactProof, i.e. all stock suites.) *)
+Theorem verified_document_exact_partial :
+  forall (canon : json -> option N) (pv_dec : string -> string -> dec) (seg_dec : string -> dec)
+         (resolve : string -> string -> option N) (accepts : string -> bool),
+    (forall a b n, canon a = Some n -> canon b = Some n -> a = b) ->
+    forall (signed_by : N -> msg -> Prop),
+    (forall t ty k m, pv_dec t ty = DSig (SBy k m) -> signed_by k m) ->
+    (forall s k m, seg_dec s = DSig (SBy k m) -> signed_by k m) ->
+    forall d p k d0 c,
+    (forall m, signed_by k m -> Some m = sign_message canon (fun j => Some j) false excluded_keys d0 c) ->
+    key_of resolve p = Some k ->
+    verify_one canon (fun j => Some j) pv_dec seg_dec resolve accepts false excluded_keys d p = true ->
+    without_proof d = without_proof d0.
+Proof.
+  intros canon pv_dec seg_dec resolve accepts Hinj signed_by Hpv Hseg d p k d0 c Honly Hk Hv.
+  destruct (tamper_one canon (fun j => Some j) pv_dec seg_dec resolve accepts false json (fun j => j)
+              Hinj (fun j j' H => eq_sym (f_equal (fun o => match o with Some x => x | None => j end) H))
+              (fun o o' H k0 _ => f_equal (fun j => match j with JObj m => lookup m k0 | _ => None end) H)
+              signed_by Hpv Hseg d p k d0 c Honly Hk Hv) as [(j & j0 & _ & _ & _ & E) _].
+  inversion E. reflexivity.
+Qed.
+Print Assumptions verified_document_exact_partial.
+
+(* ---- THE TYPED OBJECT.  Full statement: the member the typed Credential / Presentation holds is the member the
+        proof check saw.  REFUTED (known finding case-variant-member-overrides-signed-member; corpus witness
+        case-variant-issuer.json): encoding/json folds letter case, so a later member "Issuer" - undefined for
+        JSON-LD, hence neither signed nor an obstacle in default mode - becomes the issuer of the accepted object.
+        GUARDED: without another member folding to the same name, they agree.  (Strict mode rejects such a member:
+        strict_rejects.) ---- *)
+Theorem typed_member_is_verified_member_refuted :
+  let ms := [("issuer", JStr "did:example:issuer"); ("Issuer", JStr "did:example:evil")] in
+  lookup ms "issuer" = Some (JStr "did:example:issuer") /\ parsed_field "issuer" ms = Some (JStr "did:example:evil").
+Proof. vm_compute. auto. Qed.
+Print Assumptions typed_member_is_verified_member_refuted.
+
+Theorem typed_member_is_verified_member_partial :
+  forall k ms, NoDup (map fst ms) ->
+    (forall k' v, In (k', v) ms -> fold k' = fold k -> k' = k) ->
+    parsed_field k ms = lookup ms k.
+Proof. exact parsed_is_lookup. Qed.
+Print Assumptions typed_member_is_verified_member_partial.
 
 (* ---- non-vacuity: a concrete instance of every parameter (the canonicaliser is a finite injective table) in which
         a signed document verifies, and the edited one (a claim changed) does not ---- *)
